@@ -256,26 +256,25 @@ theorem makeGeneral_skip_valid [DecidableEq ν] (val : ν → Rat) (zero : ν) (
     validateElement val (some out) none false = none :=
   makeGeneral_valid val zero hz shells out (fun sh hsh => ⟨(validateShell_iff val sh).1 (hv sh hsh).1, (hv sh hsh).2⟩) h hdup
 
-/-- **`make_general` as `get_basis` calls it** (fused shells split first): valid in, valid out, for elements whose fused
-shells have an s member and whose function types are the schema's -/
+/-- **`make_general` as `get_basis` calls it** (fused shells split first): valid in, valid out, for elements whose function types are
+the schema's — fused shells of any composition (since fix 78fc7083 the split leaves no empty remainder behind; before it this theorem
+needed the hypothesis that every fused shell has an s member, and the real code raised IndexError exactly where it failed) -/
 theorem makeGeneral_full_valid [DecidableEq ν] (val : ν → Rat) (zero : ν) (hz : val zero = 0) (shells out : List (Shell ν))
     (hv : ∀ sh ∈ shells, validateShell val sh = none ∧ sh.coefs ≠ [] ∧ sh.ftype ∈ knownTypes)
-    (hlow : ∀ sh ∈ shells, sh.am.length > 1 → (splitFused 0 sh).2.am ≠ [])
     (h : makeGeneral val zero false shells = .ok out)
     (hdup : ∀ s ∈ out, s.am.length = 1 → (s.coefs.map (·.map val)).Nodup) :
     validateElement val (some out) none false = none :=
   makeGeneral_valid_split val zero hz shells out
-    (fun sh hsh => ⟨(validateShell_iff val sh).1 (hv sh hsh).1, (hv sh hsh).2.1, (hv sh hsh).2.2⟩) hlow h hdup
+    (fun sh hsh => ⟨(validateShell_iff val sh).1 (hv sh hsh).1, (hv sh hsh).2.1, (hv sh hsh).2.2⟩) h hdup
 
-/-- **`uncontract_spdf` + the final prune**: valid in, valid out, for every `max_am` that leaves each fused shell a member -/
+/-- **`uncontract_spdf` + the final prune**: valid in, valid out, for every `max_am` and fused shells of any composition -/
 theorem uncontractSpdf_prune_valid [DecidableEq ν] (val : ν → Rat) (k : Nat) (shells out : List (Shell ν))
     (hv : ∀ sh ∈ shells, validateShell val sh = none ∧ sh.coefs ≠ [] ∧ sh.ftype ∈ knownTypes)
-    (hlow : ∀ sh ∈ shells, sh.am.length > 1 → (splitFused k sh).2.am ≠ [])
     (h : pruneShells val (uncontractSpdf k shells) = .ok out)
     (hdup : ∀ s ∈ out, s.am.length = 1 → (s.coefs.map (·.map val)).Nodup) :
     validateElement val (some out) none false = none :=
   uncontractSpdf_valid val k shells out
-    (fun sh hsh => ⟨(validateShell_iff val sh).1 (hv sh hsh).1, (hv sh hsh).2.1, (hv sh hsh).2.2⟩) hlow h hdup
+    (fun sh hsh => ⟨(validateShell_iff val sh).1 (hv sh hsh).1, (hv sh hsh).2.1, (hv sh hsh).2.2⟩) h hdup
 
 /-- the hypotheses are met: an sp shell of the schema's type keeps its s member under `max_am = 0` -/
 example : let sh : Shell String := { am := [0, 1], ftype := "gto", region := "", exps := ["2.0", "1.0"], coefs := [["0.5", "0.5"], ["0.3", "0.7"]] }
